@@ -9,6 +9,22 @@ pub static READS_BEGUN: AtomicU64 = AtomicU64::new(0);
 pub static READS_DONE: AtomicU64 = AtomicU64::new(0);
 pub static BYTES_READ: AtomicU64 = AtomicU64::new(0);
 pub static READ_SIZES: Mutex<Vec<usize>> = Mutex::new(Vec::new());
+static WRITTEN: Mutex<Option<HashMap<u16, u64>>> = Mutex::new(None);
+
+/// The connection whose peer uses `peer_port` has handed `len` response bytes to its socket.
+pub fn note_write(peer_port: u16, len: usize) {
+    *WRITTEN.lock().unwrap().get_or_insert_with(HashMap::new).entry(peer_port).or_insert(0) += len as u64;
+}
+
+/// Response bytes handed to the socket of the connection whose peer uses `peer_port`.
+pub fn written_to(peer_port: u16) -> u64 {
+    WRITTEN.lock().unwrap().get_or_insert_with(HashMap::new).get(&peer_port).copied().unwrap_or(0)
+}
+
+/// A new connection from `peer_port` starts counting from zero (ports are reused).
+pub fn reset_written(peer_port: u16) {
+    WRITTEN.lock().unwrap().get_or_insert_with(HashMap::new).remove(&peer_port);
+}
 static PENDING: Mutex<Option<HashMap<usize, usize>>> = Mutex::new(None);
 
 /// A connection (identified by its address) is about to read; `len` is the
